@@ -73,6 +73,7 @@ Proof.
   change (fun kv : bytes * bytes => emit_string (fst kv) ++ emit_string (snd kv)) with emit_kv.
   rewrite <- (app_nil_r (flat_map emit_kv ud)). rewrite parse_user_data_emit by exact Hkv. reflexivity.
 Qed.
+Print Assumptions parse_var_header_emit.
 
 (* WireSchema.Deserialize's limits on what WireSchema.Serialize wrote *)
 Definition counts_okb (c : list N) : bool :=
@@ -86,6 +87,7 @@ Proof.
   rewrite app_nil_r in D. apply D.
   apply Forall_forall. intros x Hx. rewrite forallb_forall in Hc. specialize (Hc x Hx). lia.
 Qed.
+Print Assumptions parse_wire_schema_emit.
 
 Lemma leb_enc_nonempty : forall v, leb_enc v <> [].
 Proof. intros v. unfold leb_enc. cbn [leb_enc_fuel]. destruct (v <? 128); discriminate. Qed.
@@ -139,6 +141,7 @@ Proof.
     pose proof (server_open_none_is_reader_open sc root src hfl _ src' ud Hn Hl' Hp) as R.
     destruct (server_open VCurrent sc root None); exact R.
 Qed.
+Print Assumptions reader_open_header.
 
 (* the same decision for ANY header content that parses to the descriptor (not necessarily the
    canonical serialisation) *)
@@ -167,6 +170,7 @@ Proof.
     pose proof (server_open_none_is_reader_open sc root src hfl _ src' ud Hn Hl' Hp) as R.
     destruct (server_open VCurrent sc root None); exact R.
 Qed.
+Print Assumptions reader_open_parsed.
 
 (* the two sources *)
 Lemma next_frame_frames : forall hfl hdr fs trunc, frame_okb hfl hdr = true ->
@@ -219,6 +223,7 @@ Proof.
   - apply reckey_eqb_eq in H. subst. reflexivity.
   - reflexivity.
 Qed.
+Print Assumptions etree_eqb_eq.
 
 (* ------------------------------------------------------------------ either version -> current reader *)
 (* Stream/Reader.v models the reader of the current code (Compatible after fd32b12).  Whenever
@@ -251,3 +256,4 @@ Proof.
     rewrite E'. cbn [is_incompat] in Hs |- *. exact Hs.
   - cbn [is_incompat] in Hs. discriminate Hs.
 Qed.
+Print Assumptions server_open_any_current.
